@@ -32,3 +32,7 @@ Definition py_char0 (s : text) : N := match s with c :: _ => c | [] => 0 end.
 (* self.port: an int or None *)
 Definition oz_truthy (o : option Z) : bool := match o with Some p => negb (Z.eqb p 0) | None => false end.
 Definition oz_get (o : option Z) : Z := match o with Some p => p | None => 0%Z end.
+
+(* s[-1] and s[1:-1] *)
+Definition py_char_last (s : text) : N := match rev s with c :: _ => c | [] => 0 end.
+Definition py_strip1 (s : text) : text := removelast (tl s).
